@@ -1,8 +1,8 @@
 use super::{Event, Id, Kind, Pubkey, Tags, Time};
 use crate::error::{Error, InnerError};
 use crate::json::json_parse::*;
-use crate::json::json_unescape;
 use crate::json::put;
+use crate::json::{json_escape, json_unescape};
 use std::fmt;
 use std::ops::{Deref, DerefMut};
 
@@ -425,7 +425,7 @@ impl Filter {
                             output.push(b',');
                         }
                         output.push(b'"');
-                        output.extend(bytes);
+                        output = json_escape(bytes, output)?;
                         output.push(b'"');
                     }
                 }
